@@ -490,6 +490,42 @@ pub fn run(ctx: &Ctx) -> Report {
         run_set(&mut rep, c, "corpus", true, 7);
     }
 
+    // Stage C: the reference itself (nightly rustc_parse_format) is cross-checked against the *stable* compiler on a
+    // seeded sample: `format_args!(LIT, args..)` must compile iff the reference accepts the literal.
+    {
+        let nsample = ctx.tier.pick(400usize, 4000);
+        let mut pool: Vec<String> = vec![];
+        let g = enumerate_grammar();
+        for t in draw(&mut runner, &(0..g.len()), nsample / 2) {
+            pool.push(g[t.current()].clone());
+        }
+        let mut neigh = vec![];
+        for t in draw(&mut runner, &(0..g.len()), 40) {
+            one_edit_neighbours(&g[t.current()], &mut neigh);
+        }
+        for t in draw(&mut runner, &(0..neigh.len().max(1)), nsample / 4) {
+            if let Some(x) = neigh.get(t.current()) {
+                pool.push(x.clone());
+            }
+        }
+        pool.extend(draw(&mut runner, &arb_sequence(), nsample / 4).into_iter().map(|t| t.current()));
+        pool.sort();
+        pool.dedup();
+        match stage_c(ctx, &pool) {
+            Ok((checked, disagreements, tally)) => {
+                rep.evidence.set("stage_c_literals_compiled_by_stable_rustc", json!(checked));
+                rep.evidence.set("stage_c_accepted_by_both", json!(tally[0]));
+                rep.evidence.set("stage_c_rejected_by_both", json!(tally[1]));
+                rep.evidence.set("stage_c_inconclusive", json!(tally[2]));
+                rep.evidence.set("stage_c_reference_vs_stable_disagreements", json!(disagreements.len()));
+                for (lit, what) in disagreements.into_iter().take(5) {
+                    rep.infra_errors.push(format!("reference parser (nightly) and stable rustc disagree on literal {lit:?}: {what}"));
+                }
+            }
+            Err(e) => rep.infra_errors.push(format!("stage C: {e}")),
+        }
+    }
+
     // E3: coverage-guided differential campaign (thorough tier): from the committed corpus and from an empty one
     if ctx.tier == Tier::Thorough {
         let secs: u64 = std::env::var("DMV_FUZZ_SECS").ok().and_then(|s| s.parse().ok()).unwrap_or(240);
@@ -605,6 +641,108 @@ fn check_one(stage: &str, lit: &str, rp: &RefParse) -> Option<(String, String)> 
         }
         _ => None,
     }
+}
+
+/// Stage C: compiles `format_args!(LIT, args…)` with the stable toolchain for every literal and compares accept/reject
+/// with the reference. Returns (number checked, disagreements).
+fn stage_c(ctx: &Ctx, lits: &[String]) -> Result<(usize, Vec<(String, String)>, [usize; 3]), String> {
+    use super::proggen::{build_and_run, CaseSrc, ProgSpec};
+    let refs = ref_parse_all(lits)?;
+    let spec = ProgSpec { name: "gen_c03".into(), prelude: String::new(), crate_attrs: String::new(), nightly: false, check_only: true, shards: 16 };
+    let mut cases = vec![];
+    let mut idx = vec![];
+    for (i, (lit, r)) in lits.iter().zip(&refs).enumerate() {
+        // arguments: enough positional ones, every name; count parameters get `usize`, values get `&usize`
+        // (implements every formatting trait incl. Pointer)
+        let (npos, names, counts_pos, counts_names) = match r {
+            RefParse::Parsed(v) => {
+                let mut npos = 0usize;
+                let mut names: Vec<String> = vec![];
+                let mut cpos: Vec<usize> = vec![];
+                let mut cnames: Vec<String> = vec![];
+                let mut skip = false;
+                let mut implicit = 0usize;
+                for p in v {
+                    // rustc assigns implicit positions itself; mirror its counter (`.*` takes one more)
+                    if p.prec == Cnt::Star {
+                        cpos.push(implicit);
+                        implicit += 1;
+                    }
+                    match &p.pos {
+                        Pos::Implicit(_) => {
+                            npos = npos.max(implicit + 1);
+                            implicit += 1;
+                        }
+                        Pos::Index(k) => npos = npos.max(k + 1),
+                        Pos::Name(n) => {
+                            if !names.contains(n) {
+                                names.push(n.clone())
+                            }
+                        }
+                    }
+                    for c in [&p.width, &p.prec] {
+                        match c {
+                            Cnt::ParamIdx(k) => {
+                                npos = npos.max(k + 1);
+                                cpos.push(*k);
+                            }
+                            Cnt::ParamName(n) => {
+                                if !names.contains(n) {
+                                    names.push(n.clone())
+                                }
+                                cnames.push(n.clone());
+                            }
+                            _ => {}
+                        }
+                    }
+                    if npos > 64 {
+                        skip = true;
+                    }
+                }
+                npos = npos.max(implicit);
+                if skip || names.iter().any(|n| !ident_ok(n)) {
+                    continue;
+                }
+                // an argument used both as a count and as a `p` value cannot be satisfied by one type: skip those
+                (npos, names, cpos, cnames)
+            }
+            RefParse::Reject => (2, vec!["a".to_string(), "w".to_string(), "p".to_string(), "_a".to_string(), "é".to_string()], vec![], vec![]),
+        };
+        let mut args: Vec<String> = (0..npos).map(|k| if counts_pos.contains(&k) { "1usize".to_string() } else { "&1usize".to_string() }).collect();
+        for n in &names {
+            args.push(format!("{n} = {}", if counts_names.contains(n) { "1usize" } else { "&1usize" }));
+        }
+        let lit_tok = proc_macro2::Literal::string(lit).to_string();
+        let call = if args.is_empty() { format!("format!({lit_tok})") } else { format!("format!({lit_tok}, {})", args.join(", ")) };
+        let negative = r.std_ok().is_none();
+        cases.push(CaseSrc { body: format!("#[allow(unused)] pub fn f() -> String {{ {call} }}"), runnable: false, negative });
+        idx.push(i);
+    }
+    let built = build_and_run(ctx, &spec, &cases)?;
+    let mut dis = vec![];
+    // [accepted by both, rejected by both, inconclusive (the sample's arguments did not fit)]
+    let mut tally = [0usize; 3];
+    for (k, i) in idx.iter().enumerate() {
+        let r = &built.results[k];
+        let std_ok = refs[*i].std_ok().is_some();
+        if std_ok && r.compiled {
+            tally[0] += 1;
+        } else if !std_ok && !r.compiled {
+            tally[1] += 1;
+        } else if std_ok {
+            tally[2] += 1;
+        }
+        if std_ok && !r.compiled {
+            // an argument that is a count *and* a pointer/value, or an unused argument, is the sample's fault, not a disagreement
+            let t = r.error_text();
+            if t.contains("invalid format string") || t.contains("unknown format trait") {
+                dis.push((lits[*i].clone(), format!("reference accepts, stable rustc rejects: {}", r.first_error())));
+            }
+        } else if !std_ok && r.compiled {
+            dis.push((lits[*i].clone(), "reference rejects, stable rustc accepts".into()));
+        }
+    }
+    Ok((idx.len(), dis, tally))
 }
 
 /// One literal against a reference parse (stage A, then B, then the reject clause): used by the fuzz target.
